@@ -258,6 +258,17 @@ def _keys_not_reinterpreted(ctx, m, fi, rule):
     is given") - the keys the keymaps produce are themselves tuples, so the wrappers' dump(key) / load(key) would be taken for a collection of keys"""
     va = fi.node.args.vararg.arg
     hits = [n for n in ast.walk(fi.node) if isinstance(n, ast.Name) and n.id == va and isinstance(n.ctx, ast.Store)]
+
+    def mentions(x):
+        return any(isinstance(y, ast.Name) and y.id == va for y in ast.walk(x))
+    for st in ast.walk(fi.node):
+        # args += tuple(keys) / args = args + tuple(keys): more keys from another parameter are appended, every positional argument is still one key
+        if isinstance(st, ast.AugAssign) and isinstance(st.op, ast.Add) and isinstance(st.target, ast.Name) and st.target.id == va and not mentions(st.value):
+            hits = [n for n in hits if n is not st.target]
+        if isinstance(st, ast.Assign) and len(st.targets) == 1 and isinstance(st.targets[0], ast.Name) and st.targets[0].id == va \
+                and isinstance(st.value, ast.BinOp) and isinstance(st.value.op, ast.Add) and isinstance(st.value.left, ast.Name) and st.value.left.id == va \
+                and not mentions(st.value.right):
+            hits = [n for n in hits if n is not st.targets[0]]
     ctx.ob(rule, 'cache.%s: each positional argument is one key (*%s is not re-bound)' % (fi.name, va), not hits)
     for n in hits:
         ctx.fail(rule, fi.qual, '*%s re-bound' % va,
@@ -327,6 +338,22 @@ def rule_S_LOAD_DUMP(ctx, repo):
                     later = evs[i + 1:]
                     if o.kind == RETURN:
                         swallowed = True
+            # conversely: every named key is looked up in the archive (no "known to be absent / already here" shortcut decided from what this handle remembers:
+            # the archive is shared storage, another handle may have written the key since)
+            elems = set()
+            for src_ in [t for t in o.st.facts.get('truth', {})] + [a_ for e in evs for a_ in e.args if isinstance(a_, tuple)]:
+                for t in subterms(src_):
+                    if isinstance(t, tuple) and t and t[0] == 'iter' and t[1] == ARGS:
+                        elems.add(t)
+            for k in sorted(elems, key=repr):
+                asked = any(e.kind in ('AREAD', 'AREADMISS') and len(e.args) > 1 and e.args[1] == k for e in evs)
+                if not asked and o.kind == RETURN:
+                    ok = False
+                    ctx.fail('S-LOAD', fi.qual, 'named key not looked up',
+                             'cache.load(k...) has a path on which a named key is not read from the archive (%s): what this handle remembers about the archive '
+                             '("known to be absent", "already loaded") is stale as soon as another handle or process writes the key - a result that is retrievable '
+                             'is then not loaded and the function is evaluated again' % '; '.join('%s is %s' % (render(t)[:40], b) for t, b in list(o.st.facts.get('truth', {}).items())[-2:]),
+                             '%s:%d' % (m.rel, fi.node.lineno), render_path(o))
             if o.kind == RAISE and o.exc == 'KeyError':
                 ctx.fail('S-LOAD', fi.qual, 'KeyError escapes load', 'cache.load(k...) does not ignore keys that are absent from the archive',
                          '%s:%d' % (m.rel, o.line), render_path(o))
@@ -762,6 +789,22 @@ def rule_S_IDENT(ctx, repo, parts=('instances',)):
             if isinstance(v, ast.Call) and isinstance(v.func, ast.Name) and v.func.id == 'getattr' and len(v.args) == 3 and isinstance(v.args[2], ast.Constant) \
                     and (v.args[2].value is None or v.args[2].value is False):
                 opt[g] = v
+        # ... and the import spelling: try: from functools import Placeholder / except ImportError: Placeholder = None
+        for t in m.tree.body:
+            if not isinstance(t, ast.Try):
+                continue
+            bound = set()
+            for st in t.body:
+                if isinstance(st, (ast.ImportFrom, ast.Import)):
+                    bound |= set((a.asname or a.name).split('.')[0] for a in st.names)
+                elif isinstance(st, ast.Assign):
+                    bound |= set(x.id for tt in st.targets for x in ast.walk(tt) if isinstance(x, ast.Name))
+            for h in t.handlers:
+                for st in h.body:
+                    if isinstance(st, ast.Assign) and isinstance(st.value, ast.Constant) and (st.value.value is None or st.value.value is False):
+                        for tt in st.targets:
+                            if isinstance(tt, ast.Name) and tt.id in bound:
+                                opt[tt.id] = st.value
         if not opt:
             continue
         parent = {}
